@@ -17,7 +17,8 @@ RULE = (
     "Hypothesis draws a history (<=10 ops) over ONE cache (in memory or a "
     "scratch directory): search/__call__ of a query from a pool of similar "
     "contractions (same; label order inside a tensor permuted; output "
-    "permuted; one size changed; one label moved; each rebuilt from fresh or "
+    "permuted; one size changed; one label moved; two labels of different "
+    "size swapped everywhere; all labels renamed; each rebuilt from fresh or "
     "shared string objects), through one of several optimizer objects on the "
     "same directory (new objects = a fresh process as far as DiskDict can "
     "tell), with overwrite in {False, True, 'improved'}, cache_only, "
@@ -36,7 +37,7 @@ RULE = (
 )
 ASSUMPTIONS = [
     "new optimizer objects on the same directory stand in for new processes (C15 uses real ones)",
-    "under hash_method 'b' only validity of the returned tree for the query is asserted",
+    "under hash_method 'b' (relabelling-invariant by intent) asserted: validity of the returned tree, and that a query is served without search only if the same contraction up to label names was stored before",
 ]
 
 COUNT = "verif-count"
@@ -73,7 +74,7 @@ def histories(draw):
             st.fixed_dictionaries(
                 {
                     "op": st.sampled_from(["search", "search", "search", "call", "update_from_tree", "new_object"]),
-                    "variant": st.sampled_from(["same", "same", "perm_in", "perm_out", "resize", "move", "out_change"]),
+                    "variant": st.sampled_from(["same", "same", "perm_in", "perm_out", "resize", "move", "out_change", "swap_labels", "rename"]),
                     "vk": st.integers(0, 20),
                     "objmode": st.sampled_from(["shared", "fresh"]),
                     "obj": st.integers(0, 2),
@@ -165,6 +166,24 @@ def make_query(net, variant, k, objmode):
             output.remove(ix)
         else:
             output.append(ix)
+    elif variant == "swap_labels" and len(sizes) >= 2:
+        # two labels of different size trade places everywhere (the size_dict
+        # stays as it is): same incidence structure, same {label: size}, but the
+        # sizes now sit on other bonds - a different contraction
+        labs = sorted(sizes)
+        pairs = [(a, b) for i, a in enumerate(labs) for b in labs[i + 1:] if sizes[a] != sizes[b]]
+        if pairs:
+            a, b = pairs[k % len(pairs)]
+            sw = {a: b, b: a}
+            inputs = [[sw.get(ix, ix) for ix in t] for t in inputs]
+            output = [sw.get(ix, ix) for ix in output]
+    elif variant == "rename" and sizes:
+        # the same contraction under other label names (only the
+        # relabelling-invariant fingerprint can recognise it)
+        ren = {ix: ix + "r" for ix in sizes}
+        inputs = [[ren[ix] for ix in t] for t in inputs]
+        output = [ren[ix] for ix in output]
+        sizes = {ren[ix]: d for ix, d in sizes.items()}
     elif variant == "move" and sizes:
         ix = sorted(sizes)[k % len(sizes)]
         src = [i for i, t in enumerate(inputs) if ix in t]
@@ -192,6 +211,20 @@ def fingerprint_a(inputs, output, sizes):
         tuple(sorted(output)),
         tuple(sorted(sizes.items())),
     )
+
+
+def fingerprint_b(inputs, output, sizes):
+    """Relabelling-invariant identity of a contraction: the multiset of bonds,
+    each = (which tensors carry it, with multiplicity, -1 for the output; its
+    size).  Two queries with different values differ as contractions (for
+    cost and path purposes), whatever their labels are called."""
+    edges = {}
+    for ix in output:
+        edges.setdefault(ix, []).append(-1)
+    for i, t in enumerate(inputs):
+        for ix in t:
+            edges.setdefault(ix, []).append(i)
+    return tuple(sorted((tuple(sorted(nodes)), sizes[ix]) for ix, nodes in edges.items()))
 
 
 def run_case(spec, sub=None):
@@ -245,6 +278,7 @@ def run_case(spec, sub=None):
         objs = {}
         # model: fingerprint -> list of (path, sliced, score) ever stored
         model = {}
+        stored_b = set()  # relabelling-invariant identities of everything ever stored
         latest = {}  # fingerprint -> (path, sliced) that a store most recently wrote
         best_score = {}  # fingerprint -> lowest score read back under 'improved'
 
@@ -271,6 +305,7 @@ def run_case(spec, sub=None):
             opt = objs["cur"]
             q = make_query(net, op["variant"], op["vk"], op["objmode"])
             fp = fingerprint_a(*q)
+            fpb = fingerprint_b(*q)
             queries_seen.add(fp)
             inputs, output, sizes = q
 
@@ -297,6 +332,7 @@ def run_case(spec, sub=None):
                     break
                 ans = (tuple(map(tuple, tree.get_path())), tuple(tree.sliced_inds), tree.get_score())
                 model.setdefault(fp, []).append(ans)
+                stored_b.add(fpb)
                 if spec["hash_method"] == "a":
                     mode = op["uft_overwrite"]
                     if fp not in latest or mode is True:
@@ -377,11 +413,21 @@ def run_case(spec, sub=None):
                     model.setdefault(fp, []).append(ans)
                 else:
                     model.setdefault(fp, []).append(None)
+                stored_b.add(fpb)
                 # what the search returned is what the cache now holds (under
                 # 'improved' the better of old and new is both kept and returned)
                 latest[fp] = ans if spec["kind"] == "hyper" or ans is None else (ans[0], ans[1], None)
             else:
                 hits += 1
+                if fpb not in stored_b:
+                    # whatever the fingerprint: an entry may only be shared by
+                    # queries that are the same contraction up to label names
+                    viol.append(
+                        f"{what}: served from the cache without search (hash_method={spec['hash_method']!r}), but "
+                        "every stored entry belongs to a different contraction (other bonds / sizes): "
+                        "the stored path and score were made for another network"
+                    )
+                    break
                 if spec["hash_method"] == "a" and ans is not None and latest.get(fp) is not None:
                     lt = latest[fp]
                     if lt[0] != ans[0] or tuple(lt[1]) != tuple(ans[1]):
